@@ -293,8 +293,9 @@ def handleEmit : Handler := fun s =>
            | some (k, _) => s!"readback-mismatch:{k}"
            | none => "readback-mismatch:count")
         else if sharedKern != 0 then "kern-location-2-decimals"
-        else if badEmpty != 0 then "readback-empty-glyph"
+        -- rarest recorded kind first, so that each of them is the class of some case
         else if badFvar != 0 then "readback-fvar-psname"
+        else if badEmpty != 0 then "readback-empty-glyph"
         else "readback-post-string-data"
       if !fontsEqual && plainVariants > 1 then
         -- the source does not build repeatably even without --emit-ir (C01's business): undecidable here
